@@ -26,7 +26,9 @@ Record c04_case := mk_c04 {
   k_effect : effect;
   k_client_deaf : bool;    (* the rewrite makes the server address the client with a connection ID it does not own *)
   k_obs_client_ok : bool;  (* observed: client HandshakeContext returned nil *)
-  k_obs_server_ok : bool
+  k_obs_server_ok : bool;
+  k_obs_params_equal : bool (* observed: every negotiated parameter reported by a side that succeeded (cipher suite, ALPN,
+                               SRTP profile, extended master secret, key-exchange group) equals the untampered run's *)
 }.
 
 Definition base_view (ems cv : bool) : view sterm :=
@@ -60,14 +62,22 @@ Definition predict_with (chk : bool) (k : c04_case) : bool * bool :=
 
 Definition predict : c04_case -> bool * bool := predict_with server12_checks_client_finished.
 
+(* a rewrite outside the transcript (first ClientHello, HelloVerifyRequest) cannot be detected by protocol
+   design: what must hold instead is that it steers nothing - the server negotiates from the second
+   ClientHello (Hs/C04TranscriptSound.negotiation_input_bound) *)
+Definition predicts_untouched_params (k : c04_case) : bool :=
+  match k_effect k with ENone => server12_negotiates_from_second_hello | _ => false end.
+
 Definition c04_ok (k : c04_case) : bool :=
-  let '(pc, ps) := predict k in Bool.eqb pc (k_obs_client_ok k) && Bool.eqb ps (k_obs_server_ok k).
+  let '(pc, ps) := predict k in
+  Bool.eqb pc (k_obs_client_ok k) && Bool.eqb ps (k_obs_server_ok k)
+  && (negb (predicts_untouched_params k) || k_obs_params_equal k).
 
 (* the property's own predicate on an observed case: a message of the transcript was altered, yet an
    endpoint that sent or received it reports success *)
 Definition c04_violates (k : c04_case) : bool :=
   match k_effect k with
-  | ENone => false
+  | ENone => (k_obs_client_ok k || k_obs_server_ok k) && negb (k_obs_params_equal k)
   | _ => k_obs_client_ok k || k_obs_server_ok k
   end.
 Definition c04_not_violating (k : c04_case) : bool := negb (c04_violates k).
@@ -81,20 +91,20 @@ Definition mismatches {A} (ok : A -> bool) (l : list A) : list N := mismatches_f
 
 (* sanity: the predictions the theorems of C04TranscriptSound speak about *)
 Example predict_f5 :
-  predict_with false (mk_c04 false false false false false ETranscript false false false) = (false, true).
+  predict_with false (mk_c04 false false false false false ETranscript false false false true) = (false, true).
 Proof. vm_compute. reflexivity. Qed.
 Example predict_f5_fixed :
-  predict_with true (mk_c04 false false false false false ETranscript false false false) = (false, false).
+  predict_with true (mk_c04 false false false false false ETranscript false false false true) = (false, false).
 Proof. vm_compute. reflexivity. Qed.
 Example predict_ems :
-  predict_with false (mk_c04 false true true false false ETranscript false false false) = (false, false).
+  predict_with false (mk_c04 false true true false false ETranscript false false false true) = (false, false).
 Proof. vm_compute. reflexivity. Qed.
 Example predict_client_auth :
-  predict_with false (mk_c04 false false false true false ETranscript false false false) = (false, false).
+  predict_with false (mk_c04 false false false true false ETranscript false false false true) = (false, false).
 Proof. vm_compute. reflexivity. Qed.
 Example predict_untouched :
-  predict_with false (mk_c04 false true true true false ENone false false false) = (true, true).
+  predict_with false (mk_c04 false true true true false ENone false false false true) = (true, true).
 Proof. vm_compute. reflexivity. Qed.
 Example predict_resumed :
-  predict_with false (mk_c04 true false false false false ETranscript false false false) = (false, false).
+  predict_with false (mk_c04 true false false false false ETranscript false false false true) = (false, false).
 Proof. vm_compute. reflexivity. Qed.
